@@ -886,6 +886,384 @@ def _build_des_prim(d):
 NATIVE.add(SD + "_serialize_primitive", _gen_prim, _build_ser_prim)
 NATIVE.add(SD + "_deserialize_primitive", _gen_prim, _build_des_prim)
 
-NOT_COVERED = []
-EXPLANATION = ""
-ASSUMPTIONS = []
+
+# ---- nested types (JSON descriptions) for the decoding contracts and the bounded stand-in
+def _gen_type(rng, depth=0, composite_only=False):
+    kinds = ["struct", "union", "delim"] if composite_only else \
+        ["uint", "uint", "int", "bool", "float", "farr", "varr", "varr", "bytes", "utf8", "struct", "union", "delim"]
+    if depth >= 2:
+        kinds = [k for k in kinds if k in ("uint", "int", "bool", "float", "bytes", "utf8")] or ["struct"]
+        if composite_only:
+            kinds = ["struct"]
+    k = rng.choice(kinds)
+    if k in ("uint", "int"):
+        return {"k": k, "n": rng.choice([1, 2, 3, 5, 7, 8, 9, 13, 16, 17, 32, 33, 64]) if k == "uint" else
+                rng.choice([2, 3, 7, 8, 9, 16, 31, 32, 64]), "cast": rng.choice(["s", "t"])}
+    if k == "bool":
+        return {"k": "bool"}
+    if k == "float":
+        return {"k": "float", "n": rng.choice([16, 32, 64]), "cast": rng.choice(["s", "t"])}
+    if k in ("farr", "varr"):
+        el = _gen_type(rng, depth + 1)
+        big = el["k"] in ("uint", "int", "bool", "float")  # large capacities only over fixed-size elements
+        return {"k": k, "cap": rng.choice([1, 2, 3, 5] + ([255, 256] if big else [])) if k == "varr" else rng.choice([1, 2, 3]),
+                "el": el}
+    if k in ("bytes", "utf8"):
+        return {"k": k, "cap": rng.choice([1, 3, 10, 255, 256])}
+    if k == "struct":
+        n = rng.choice([0, 1, 2, 3]) if depth < 2 else rng.choice([0, 1, 2])
+        fs = []
+        for _ in range(n):
+            fs.append({"pad": rng.choice([1, 3, 8])} if rng.random() < 0.15 else _gen_type(rng, depth + 1))
+        return {"k": "struct", "fields": fs}
+    if k == "union":
+        return {"k": "union", "fields": [_gen_type(rng, depth + 1) for _ in range(rng.choice([2, 3]))]}
+    inner = _gen_type(rng, depth + 1, composite_only=True)
+    while inner["k"] == "delim":
+        inner = inner["inner"]
+    return {"k": "delim", "inner": inner, "slack": rng.choice([0, 0, 8, 64])}
+
+
+_counter = [0]
+
+
+def _mk_any_type(d):
+    from pathlib import Path
+    from pydsdl import _serializable as S
+    from pydsdl._serializable._composite import Version
+
+    k = d["k"]
+    if k in ("uint", "int", "bool", "float"):
+        return c12._mk_type(d if k != "int" else dict(d, cast="s"))
+    CM = S.PrimitiveType.CastMode
+    if k == "farr":
+        return S.FixedLengthArrayType(_mk_any_type(d["el"]), d["cap"])
+    if k == "varr":
+        return S.VariableLengthArrayType(_mk_any_type(d["el"]), d["cap"])
+    if k == "bytes":
+        return S.VariableLengthArrayType(S.ByteType(), d["cap"])
+    if k == "utf8":
+        return S.VariableLengthArrayType(S.UTF8Type(), d["cap"])
+    _counter[0] += 1
+    common = dict(version=Version(1, 0), deprecated=False, fixed_port_id=None, source_file_path=Path("t", "T"),
+                  has_parent_service=False)
+    if k == "struct":
+        attrs = []
+        for i, f in enumerate(d["fields"]):
+            attrs.append(S.PaddingField(S.VoidType(f["pad"])) if "pad" in f else S.Field(_mk_any_type(f), "f%d" % i))
+        return S.StructureType(name="t.S%d" % _counter[0], attributes=attrs, **common)
+    if k == "union":
+        attrs = [S.Field(_mk_any_type(f), "v%d" % i) for i, f in enumerate(d["fields"])]
+        return S.UnionType(name="t.U%d" % _counter[0], attributes=attrs, **common)
+    inner = _mk_any_type(d["inner"])
+    return S.DelimitedType(inner, inner.extent + d["slack"])
+
+
+def _gen_value(rng, t):
+    """a value valid for the real type object t (strict form)"""
+    from pydsdl import _serializable as S
+
+    if isinstance(t, S.BooleanType):
+        return rng.random() < 0.5
+    if isinstance(t, S.FloatType):
+        return rng.choice([0.0, 1.0, -2.5, 65504.0, 1e-7, float("inf"), float("-inf")])
+    if isinstance(t, S.IntegerType):
+        r = t.inclusive_value_range
+        return rng.choice([int(r.min), int(r.max), 0, rng.randint(int(r.min), int(r.max))])
+    if isinstance(t, S.ArrayType):
+        n = t.capacity if isinstance(t, S.FixedLengthArrayType) else rng.choice([0, 1, min(2, t.capacity), min(3, t.capacity)])
+        if isinstance(t.element_type, S.UTF8Type):
+            return "".join(rng.choice(["a", "z", "0"]) for _ in range(n))
+        if isinstance(t.element_type, S.ByteType):
+            return bytes(rng.randrange(256) for _ in range(n))
+        return [_gen_value(rng, t.element_type) for _ in range(n)]
+    if isinstance(t, S.DelimitedType):
+        return _gen_value(rng, t.inner_type)
+    if isinstance(t, S.UnionType):
+        f = rng.choice(t.fields)
+        return {f.name: _gen_value(rng, f.data_type)}
+    if isinstance(t, S.StructureType):
+        return {f.name: _gen_value(rng, f.data_type) for f in t.fields_except_padding}
+    raise TypeError(t)
+
+
+def _gen_des(rng, i):
+    d = _gen_reader(rng, i)
+    d["data"] = [rng.choice([0, 0, 1, 2, 3, 255, rng.randrange(256)]) for _ in range(rng.choice([0, 1, 2, 4, 6, 9, 14]))]
+    d["start"] = rng.choice([0, 0, 0, 8, 3])
+    d["off"] = d["start"] + rng.choice([0, 0, 8, 5])
+    d["type"] = _gen_type(rng, composite_only=rng.random() < 0.6)
+    d["hdr"] = rng.random() < 0.4
+    return d
+
+
+def _build_des(which):
+    def build(d):
+        from pydsdl import _serdes, _serializable as S
+
+        t = _mk_any_type(d["type"])
+        r = _mk_reader(d)
+        if which == "array":
+            if not isinstance(t, S.ArrayType):
+                raise ValueError("not an array")
+            return (lambda: _serdes._deserialize_array(r, t)), {"reader": r, "schema": t}
+        if which == "composite":
+            if not isinstance(t, S.CompositeType):
+                raise ValueError("not a composite")
+            return (lambda: _serdes._deserialize_composite(r, t)), {"reader": r, "schema": t}
+        if which == "element":
+            return (lambda: _serdes._deserialize_element(r, t)), {"reader": r, "element_type": t}
+        if which == "field":
+            return (lambda: _serdes._deserialize_field_value(r, t)), {"reader": r, "field_type": t}
+        if not isinstance(t, S.CompositeType):
+            raise ValueError("not a composite")
+        data = bytes(d["data"])
+        return (lambda: _serdes.deserialize(t, data, with_delimiter_header=d["hdr"])), {
+            "schema": t, "data": data, "with_delimiter_header": d["hdr"]}
+
+    return build
+
+
+NATIVE.add(SD + "_deserialize_array", _gen_des, _build_des("array"))
+NATIVE.add(SD + "_deserialize_composite", _gen_des, _build_des("composite"))
+NATIVE.add(SD + "_deserialize_element", _gen_des, _build_des("element"))
+NATIVE.add(SD + "_deserialize_field_value", _gen_des, _build_des("field"))
+NATIVE.add(SD + "deserialize", _gen_des, _build_des("top"))
+
+
+# ------------------------------------------------------------------------------------------------ bounded stand-ins
+def _has_float(d):
+    if d["k"] == "float":
+        return True
+    return any(_has_float(x) for x in ([d.get("el")] if d.get("el") else []) + [f for f in d.get("fields", []) if "k" in f]
+               + ([d["inner"]] if d.get("inner") else []))
+
+
+def _bounded_codec(eng, tier, seed):
+    """BOUNDED stand-in (native, seeded random nested types x values) for the parts of C06/C07/C14 that the contracts do
+       not reach: the serializer for arrays / composites, the composite-level round trip, length in bit_length_set,
+       implicit truncation / zero extension of whole objects, evolution of delimited types."""
+    import random
+    from pydsdl import _serdes, _serializable as S, serialize, deserialize
+
+    rng = random.Random(seed + 606)
+    budget = 400 if tier == "quick" else 6000
+    viol = []
+    stats = {"types": 0, "round_trips": 0, "truncation_checks": 0, "garbage_inputs": 0, "evolution_pairs": 0}
+
+    def bad(name, detail, concrete):
+        if len(viol) < 5:
+            viol.append({"name": "_serdes.bounded/" + name, "detail": detail, "concrete": concrete})
+
+    def lens(t):
+        return {(x + 7) // 8 * 8 for x in t.bit_length_set}
+
+    import signal
+
+    class _Slow(Exception):
+        pass
+
+    def _alarm(*a):
+        raise _Slow()
+
+    stats["skipped_slow"] = 0
+    def one_type():
+        td = _gen_type(rng, composite_only=True)
+        try:
+            t = _mk_any_type(td)
+        except _Slow:
+            raise
+        except Exception:
+            return
+        stats["types"] += 1
+        flt = _has_float(td)
+        lens(t)
+        for _k in range(3):
+            v = _gen_value(rng, t)
+            hdr = isinstance(t, S.DelimitedType) and rng.random() < 0.5
+            try:
+                b = serialize(t, v, with_delimiter_header=hdr)
+                allowed = lens(t) if (hdr or not isinstance(t, S.DelimitedType)) else lens(t.inner_type)
+                if 8 * len(b) not in allowed:
+                    bad("length-in-bit-length-set", "%d bits not in the set" % (8 * len(b)), {"type": td, "value": repr(v)})
+                back = deserialize(t, b, with_delimiter_header=hdr)
+                if serialize(t, back, with_delimiter_header=hdr) != b or (not flt and back != v):
+                    bad("round-trip", "deserialize(serialize(v)) differs", {"type": td, "value": repr(v), "back": repr(back)})
+                stats["round_trips"] += 1
+                if not hdr:
+                    junk = bytes(rng.randrange(256) for _ in range(rng.choice([1, 3, 8])))
+                    if repr(deserialize(t, b + junk)) != repr(back) or repr(deserialize(t, b + bytes(5))) != repr(back):
+                        bad("implicit-truncation", "trailing bytes change the result", {"type": td, "value": repr(v)})
+                    stats["truncation_checks"] += 1
+                    # every prefix: decodes like the zero-extended prefix, or is rejected by a SerDesError / ValueError
+                    cut = rng.randrange(len(b) + 1)
+                    res = []
+                    for data in (b[:cut], b[:cut] + bytes(len(b) - cut + 4)):
+                        try:
+                            res.append(repr(deserialize(t, data)))
+                        except (_serdes.SerDesError, ValueError):
+                            res.append("rejected")
+                    if res[0] != res[1] and "rejected" not in res:
+                        bad("zero-extension", "missing trailing bytes do not read as zeros", {"type": td, "value": repr(v), "cut": cut})
+            except Exception as e:  # noqa
+                bad("serialize-valid-value", "%s: %s" % (type(e).__name__, e), {"type": td, "value": repr(v)})
+        # totality on garbage
+        data = bytes(rng.choice([0, 255, rng.randrange(256)]) for _ in range(rng.choice([0, 1, 2, 5, 9, 17])))
+        for hdr in ((False, True) if isinstance(t, S.DelimitedType) else (False,)):
+            stats["garbage_inputs"] += 1
+            try:
+                r = deserialize(t, data, with_delimiter_header=hdr)
+                again = deserialize(t, serialize(t, r, with_delimiter_header=hdr), with_delimiter_header=hdr)
+                if not _has_float(td) and again != r:
+                    bad("decoded-object-is-valid", "re-encoding the decoded object is not a fixed point", {"type": td, "data": list(data)})
+            except (_serdes.SerDesError, ValueError):
+                pass
+            except Exception as e:  # noqa
+                bad("totality", "%s escaped from deserialize: %s" % (type(e).__name__, e), {"type": td, "data": list(data), "hdr": hdr})
+
+    old_handler = signal.signal(signal.SIGALRM, _alarm)
+    for _ in range(budget):
+        signal.setitimer(signal.ITIMER_REAL, 2.0)  # a type whose bit length set is huge is skipped (counted)
+        try:
+            one_type()
+        except _Slow:
+            stats["skipped_slow"] += 1
+        finally:
+            signal.setitimer(signal.ITIMER_REAL, 0)
+    signal.signal(signal.SIGALRM, old_handler)
+    # C14 wire: revisions of a delimited type with the same extent inside containers
+    CM = S.PrimitiveType.CastMode
+    u = lambda n: S.UnsignedIntegerType(n, CM.TRUNCATED)
+    revs = [[("a", u(8))], [("a", u(8)), ("b", u(16))], [("a", u(8)), ("b", u(16)), ("c", u(32))]]
+
+    def mk_struct(name, fields):
+        from pathlib import Path
+        from pydsdl._serializable._composite import Version
+
+        return S.StructureType(name=name, version=Version(1, 0), attributes=[S.Field(ft, fn) for fn, ft in fields],
+                               deprecated=False, fixed_port_id=None, source_file_path=Path("t", "T"), has_parent_service=False)
+
+    def containers(d):
+        from pathlib import Path
+        from pydsdl._serializable._composite import Version
+
+        yield "field", mk_struct("t.C1", [("x", d), ("tail", u(8))])
+        yield "array", mk_struct("t.C2", [("pre", u(3)), ("xs", S.FixedLengthArrayType(d, 2)), ("tail", u(16))])
+        yield "vararray", mk_struct("t.C3", [("xs", S.VariableLengthArrayType(d, 3)), ("tail", u(8))])
+        yield "union", mk_struct("t.C4", [("u", S.UnionType(name="t.U", version=Version(1, 0), attributes=[
+            S.Field(d, "d"), S.Field(u(8), "o")], deprecated=False, fixed_port_id=None, source_file_path=Path("t", "T"),
+            has_parent_service=False)), ("tail", u(8))])
+
+    for i, fw in enumerate(revs):
+        for j, fr in enumerate(revs):
+            dw = S.DelimitedType(mk_struct("t.D", fw), 64)
+            dr = S.DelimitedType(mk_struct("t.D", fr), 64)
+            for (cn, cw), (_, cr) in zip(containers(dw), containers(dr)):
+                for _k in range(10 if tier == "quick" else 100):
+                    stats["evolution_pairs"] += 1
+                    v = _gen_value(rng, cw)
+                    back = deserialize(cr, serialize(cw, v))
+                    common = [n for n, _ in fw if n in dict(fr)]
+
+                    def objs(x):
+                        if cn == "field":
+                            return [x["x"]]
+                        if cn in ("array", "vararray"):
+                            return list(x["xs"])
+                        return [x["u"]["d"]] if "d" in x["u"] else []
+                    ok = back["tail"] == v["tail"] and len(objs(back)) == len(objs(v))
+                    for ow, orr in zip(objs(v), objs(back)):
+                        ok = ok and all(orr[n] == ow[n] for n in common) and all(orr[n] == 0 for n, _ in fr if n not in dict(fw))
+                    if cw.bit_length_set != cr.bit_length_set or not ok:
+                        bad("delimited-evolution", "writer revision %d, reader revision %d, container %s" % (i, j, cn),
+                            {"value": repr(v), "back": repr(back)})
+    return {"name": "bounded codec stand-in (serializer, composite round trip, length in bit_length_set, truncation / zero "
+                    "extension, totality on garbage, delimited evolution)", "level": "bounded",
+            "bound": "seeded random nested types (depth <= 3, <= 3 fields) x 3 values; %d types" % budget,
+            "stats": stats, "violations": viol}
+
+
+def _bit_op_table(eng, tier, seed):
+    """Complete finite check of the assumed bit-operator identities on the domain on which the writer uses them
+       (byte values x bit index), and a seeded sample for the mask identity on arbitrary integers."""
+    import random
+
+    viol = []
+    for x in range(256):
+        for k in range(8):
+            if x & ~(1 << k) != x - ((x >> k) & 1) * 2 ** k:
+                viol.append({"name": "_serdes.bitops/and-not", "detail": "x=%d k=%d" % (x, k)})
+            if x < 2 ** k and x | (1 << k) != x + 2 ** k:
+                viol.append({"name": "_serdes.bitops/or-disjoint", "detail": "x=%d k=%d" % (x, k)})
+    rng = random.Random(seed)
+    for _ in range(2000):
+        v = rng.randrange(-2 ** 70, 2 ** 70)
+        n = rng.randrange(0, 72)
+        if v & ((1 << n) - 1) != v % 2 ** n or (v >> n) != v // 2 ** n:
+            viol.append({"name": "_serdes.bitops/mask", "detail": "v=%d n=%d" % (v, n)})
+        if n and int.from_bytes((v % 2 ** (8 * n)).to_bytes(n, "little"), "little") != v % 2 ** (8 * n):
+            viol.append({"name": "_serdes.bitops/to-bytes", "detail": "v=%d n=%d" % (v, n)})
+    return {"name": "bit operator identities assumed by the library model", "level": "complete over bytes x bit index; "
+            "seeded sample (2000) for masks / shifts / to_bytes on integers up to 2**70", "violations": viol[:5]}
+
+
+EXTRA_CHECKS = [_bounded_codec, _bit_op_table]
+
+NOT_COVERED = [
+    "_serialize_array / _serialize_composite / serialize / _default_value / _normalize_relaxed_value (dict handling of the "
+    "serializer): no contract; covered only by the BOUNDED native stand-in (composite round trip, produced length in "
+    "bit_length_set, defaults, delimiter header = inner byte length)",
+    "offsets of arrays / structures / unions as elements of L(T) (link to the C02 oracle), alignment before each field and "
+    "final padding of composites on the reader side: only `reader moves forward` is proved for non-delimited composites; "
+    "bounded stand-in only",
+    "values of deserialized arrays / composites (lists / dicts are opaque to the engine); the value level is proved for "
+    "primitives only",
+    "float codec (IEEE 754 packing through struct, NaN/inf/subnormals, float -> int rounding of numeric inputs): trusted",
+    "termination of the mutually recursive _deserialize_* functions (structural recursion over the finite type tree): not "
+    "proved; read_bits / write_bits recursion is proved terminating (decreases bit_length)",
+    "relaxed input forms (_normalize_relaxed_value)",
+]
+NOT_COVERED_C07 = [
+    "the clause `returns an object that is valid for T (re-serialisation is a fixed point)`: bounded stand-in only",
+    "b and b followed by zero bytes decode alike at the level of whole objects: proved for every single read (bitsval over "
+    "the zero-extended data) and for primitives; composite level by the bounded stand-in",
+    "a nested TypeError (a field / element / inner type that is a ServiceType) is allowed by the contracts of the "
+    "_deserialize_* functions: excluded by the model invariants of the type constructors (C02 `fields-serializable`, "
+    "`element-serializable`, `inner-not-service`), which are not connected to the copying `fields` accessor here",
+    "float decoding (struct.unpack on an exactly-sized buffer is total): trusted; termination of the type recursion",
+]
+NOT_COVERED_C14 = [
+    "layout half (container bit length set / extent / following offsets unchanged when a nested delimited type is replaced "
+    "by a revision with the same extent): C02/C08 contracts, not this module",
+    "writer side: delimiter header = byte length of the inner representation (the serializer has no contract): bounded "
+    "stand-in (360 writer/reader revision pairs x containers x values per run)",
+    "`common leading fields keep their values`: value level is opaque to the engine; bounded stand-in",
+]
+EXPLANATION = (
+    "Bit layer: _BitReader.read_bits returns bitsval(data, offset, k) (k = n, or the bits left before start+limit of a bounded "
+    "sub-reader) and always advances by n - proved for symbolic, unbounded offsets / widths / data: slow path by the loop "
+    "invariant acc == bitsval(data, off, i), fast path through int.from_bytes = base-256 digits and the split lemma, the "
+    "recursion through the function's own contract with a decreases clause. _BitWriter keeps WFw (len == ceil(off/8), "
+    "nothing beyond the offset) and write_bits(v, n) leaves every earlier read unchanged and makes bitsval(buf, off, n) == "
+    "v mod 2**n. Primitive codec: finite instantiation over class x width 1..64 x cast mode with the value symbolic: wire "
+    "value is the Specification's (two's complement of the saturated / truncated value) and decoding it gives the value "
+    "back. Decoding of arrays / composites: prefix > capacity, tag >= number of variants and 8*header > remaining bits are "
+    "rejected exactly then (exceptions raised by the function itself), a normal return implies the opposite, a delimited "
+    "object occupies 32 + 8*header bits whatever its inner type is, and only SerDesError / ValueError (TypeError for "
+    "services) can escape. Mathematical facts about bitsval / lsb are ground instances of theorems proved in "
+    "lean/Pydsdl/Bits.lean (checked on every run).")
+EXPLANATION_C07 = EXPLANATION
+EXPLANATION_C14 = EXPLANATION
+ASSUMPTIONS = [
+    "library model of bytes / bytearray / int.from_bytes / int.to_bytes / << >> | & ~ (pyvc/bytesmodel.py, listed under "
+    "assumed_library_contracts); the identities x & ~(1<<k) and x | (1<<k) are checked exhaustively on bytes x bit index",
+    "ground instances of the bit-layer lemma schemas of pyvc/bittheory.py (each names its Lean theorem); the correspondence "
+    "SMT schema <-> Lean statement is by hand and tested natively (hints are evaluated on concrete data in the native runs)",
+    "slice / zero-padding provenance (`view`) of bytes values in the library model: byte i of data[a:b] padded with zeros "
+    "is byte a+i of the zero-extended data (used for int.from_bytes in the fast path)",
+    "a bytearray field is owned by its object (_BitWriter._buffer is allocated in __init__ and never leaked: finish() copies)",
+    "bytes(list) of the elements of a decoded byte / utf8 array may raise ValueError in the model (it cannot: the elements are "
+    "uint8 values) - an over-approximation inside the allowed exception classes",
+    "_serialize_primitive / _deserialize_primitive for FloatType: only offset / frame clauses are stated and they are NOT "
+    "verified for floats (no instance); they are used at call sites",
+]
